@@ -1908,6 +1908,551 @@ Section Parse.
     apply gsub_one_ctx; auto.
   Qed.
 
+  (* ================= GSUB6 ================= *)
+  Hypothesis HK6 : no_chain_names F = true.
+
+  Lemma chain_peek_nobar : forall t ts, ityp_eqb (ttyp t) TBar = false -> ityp_eqb (ttyp t) TEOF = false ->
+    chain_peek endl (t :: ts) = POk ((t, ttyp t), t :: ts).
+  Proof.
+    intros t ts Hb He. unfold chain_peek. unfold bind at 1. cbn [read]. rewrite Hb.
+    unfold bind at 1. unfold ret at 1. unfold bind at 1. rewrite unread_cons by auto. reflexivity.
+  Qed.
+
+  Lemma chain_peek_bar : forall l t2 ts, ityp_eqb (ttyp t2) TEOF = false ->
+    chain_peek endl (t_bar l :: t2 :: ts) = POk ((t_bar l, ttyp t2), t_bar l :: t2 :: ts).
+  Proof.
+    intros l t2 ts He. unfold chain_peek. unfold bind at 1. cbn [read ttyp t_bar ityp_eqb].
+    unfold bind at 1. unfold bind at 1. unfold peek, bind at 1. cbn [read]. unfold bind at 1.
+    rewrite unread_cons by auto. unfold ret at 1. unfold ret at 1. unfold bind at 1.
+    rewrite unread_cons by reflexivity. reflexivity.
+  Qed.
+
+  Lemma raw_name_not_chain : forall g, raw_name F g <> k_inputclass /\ raw_name F g <> k_backtrackclass
+                                       /\ raw_name F g <> k_lookaheadclass.
+  Proof.
+    intros g. unfold raw_name. unfold no_chain_names in HK6. rewrite forallb_forall in HK6.
+    destruct (nth_in_or_default (N.to_nat g) (f_names F) []) as [Hin|Hd].
+    - specialize (HK6 _ Hin). repeat (apply andb_true_iff in HK6; destruct HK6 as [HK6 ?]).
+      repeat match goal with H : negb _ = true |- _ => apply negb_true_iff in H end.
+      repeat split; intros E; rewrite E in *; rewrite list_eqb_refl in *; discriminate.
+    - rewrite Hd. repeat split; discriminate.
+  Qed.
+
+  Definition not_chain_kw (t : token) : Prop :=
+    is_ident t k_inputclass = false /\ is_ident t k_backtrackclass = false /\ is_ident t k_lookaheadclass = false.
+
+  Lemma name_tok_not_chain : forall g l, not_chain_kw (name_tok F g l).
+  Proof.
+    intros g l. unfold name_tok, not_chain_kw. destruct (is_nil (raw_name F g)); [repeat split; reflexivity|].
+    destruct (raw_name_not_chain g) as (A & B & C).
+    unfold is_ident. cbn [ttyp tval ityp_eqb andb]. repeat split; apply list_eqb_neq; auto.
+  Qed.
+
+  Lemma glyph_tok_not_chain : forall g l, not_chain_kw (glyph_tok U F g l).
+  Proof.
+    intros g l. unfold glyph_tok. destruct (list_eqb _ _); [apply name_tok_not_chain|].
+    destruct (negb _); [repeat split; reflexivity|apply name_tok_not_chain].
+  Qed.
+
+  Lemma gl_toks_head6 : forall g gs l, exists t ts, gl_toks U F (g :: gs) l = t :: ts /\
+    after_flags t = true /\ not_chain_kw t /\ ityp_eqb (ttyp t) TBar = false /\
+    ityp_eqb (ttyp t) TSlash = false /\ ityp_eqb (ttyp t) TLBr = false.
+  Proof.
+    intros g gs l. destruct gs as [|g' gs].
+    - cbn. eexists. eexists. split; [reflexivity|]. split; [apply after_flags_glyph_tok|].
+      split; [apply glyph_tok_not_chain|]. destruct (glyph_tok_typ g l) as [E|[E|E]]; rewrite E; auto.
+    - unfold gl_toks. cbv beta iota. destruct (forallb _ _).
+      + eexists. eexists. repeat split; reflexivity.
+      + cbn [map]. eexists. eexists. split; [reflexivity|]. split; [apply after_flags_name_tok|].
+        split; [apply name_tok_not_chain|]. destruct (name_tok_typ g l) as [E|E]; rewrite E; auto.
+  Qed.
+
+  (* ---- format 1 ---- *)
+  Definition crule1_ok (e : N * chain_rule) : Prop :=
+    gids_ok F (rev (fst (fst (fst (snd e))))) = true /\ gids_ok F (fst e :: snd (fst (fst (snd e)))) = true
+    /\ gids_ok F (snd (fst (snd e))) = true /\ acts_ok (snd (snd e)) = true.
+
+  Lemma chain1_toks_false : forall e mm l,
+    chain1_toks U F (e :: mm) false l = t_comma l :: chain1_toks U F (e :: mm) true l.
+  Proof. intros [g [[[b i] la] a]] mm l. reflexivity. Qed.
+
+  Lemma chain1_head : forall e mm l ts, exists t r,
+    chain1_toks U F (e :: mm) true l ++ ts = t :: r /\
+    ityp_eqb (ttyp t) TEOL = false /\ ityp_eqb (ttyp t) TEOF = false.
+  Proof.
+    intros [g [[[b i] la] a]] mm l ts. cbn [chain1_toks app].
+    destruct (rev b) as [|x xs].
+    - cbn [gl_toks app]. eexists. eexists. split; [reflexivity|]. split; reflexivity.
+    - destruct (gl_toks_head6 x xs l) as (t & r & E & A & _). rewrite E. cbn [app].
+      destruct (after_flags_props _ A). eauto.
+  Qed.
+
+  Lemma chain1_loop_ok : forall mm l fuel data t0 rest,
+    mm <> [] -> Forall crule1_ok mm -> ends_list t0 = true ->
+    (length (chain1_toks U F mm true l ++ t0 :: rest) < fuel)%nat ->
+    chain1_loop F endl fuel data (chain1_toks U F mm true l ++ t0 :: rest) = POk (data ++ mm, t0 :: rest).
+  Proof.
+    induction mm as [|[g [[[bt inp] la] acts]] mm IH]; intros l fuel data t0 rest Hn Hm Ht Hf; [congruence|].
+    destruct fuel as [|f]; [cbn in Hf; lia|].
+    destruct (ends_list_props _ Ht) as (Hstop & Hnc & Hne). pose proof (ends_list_not_int _ Ht) as Hni.
+    inversion Hm as [|? ? Hk Hmm]; subst. destruct Hk as (Hb & Hi & Hl & Ho). cbn [fst snd] in *.
+    cbn [chain1_toks app chain1_loop]. repeat (progress (rewrite <- ?app_assoc; cbn [app])).
+    unfold bind at 1.
+    rewrite (rgl_gl (rev bt) l (S f) (t_bar l)); auto; [|clear - Hf; cbn [chain1_toks] in Hf; fuel_tac].
+    unfold bind at 1. rewrite required_hit by reflexivity.
+    unfold bind at 1.
+    rewrite (rgl_gl (g :: inp) l (S f) (t_bar l)); auto; [|clear - Hf; cbn [chain1_toks] in Hf; fuel_tac].
+    unfold bind at 1. rewrite required_hit by reflexivity.
+    unfold bind at 1.
+    rewrite (rgl_gl la l (S f) (t_arrow l)); auto; [|clear - Hf; cbn [chain1_toks] in Hf; fuel_tac].
+    unfold bind at 1. rewrite required_hit by reflexivity.
+    unfold bind at 1. rewrite rev_involutive.
+    destruct mm as [|e' mm'].
+    - cbn [chain1_toks app]. rewrite ?app_nil_r.
+      rewrite read_nested_exact; auto; [|clear - Hf; cbn [chain1_toks] in Hf; fuel_tac].
+      cbn [app]. unfold bind at 1. rewrite optional_miss by auto. reflexivity.
+    - rewrite chain1_toks_false. cbn [app]. rewrite <- ?app_assoc. cbn [app].
+      rewrite read_nested_exact; auto; [|clear - Hf; cbn [chain1_toks] in Hf; fuel_tac].
+      cbn [app]. unfold bind at 1. rewrite optional_hit by reflexivity.
+      unfold bind at 1.
+      destruct (chain1_head e' mm' l (t0 :: rest)) as (th & tr & Eh & A1 & A2).
+      assert (Hopt : optional endl TEOL (chain1_toks U F (e' :: mm') true l ++ t0 :: rest)
+                     = POk (false, chain1_toks U F (e' :: mm') true l ++ t0 :: rest)).
+      { rewrite Eh. apply optional_miss; auto. }
+      rewrite Hopt.
+      rewrite IH; auto; [rewrite <- app_assoc; reflexivity|discriminate|].
+      clear - Hf. destruct e' as [g' [[[b' i'] l'] a']]. cbn [chain1_toks] in *. fuel_tac.
+  Qed.
+
+  (* ---- format 2 ---- *)
+  Definition crule2_ok (kb ki kl : nat) (e : N * chain_rule) : Prop :=
+    Forall (fun c => c <= N.of_nat kb) (rev (fst (fst (fst (snd e)))))
+    /\ Forall (fun c => c <= N.of_nat ki) (fst e :: snd (fst (fst (snd e))))
+    /\ Forall (fun c => c <= N.of_nat kl) (snd (fst (snd e))) /\ acts_ok (snd (snd e)) = true.
+
+  Lemma chain2_toks_false : forall e mm l,
+    chain2_toks (e :: mm) false l = t_comma l :: chain2_toks (e :: mm) true l.
+  Proof. intros [g [[[b i] la] a]] mm l. reflexivity. Qed.
+
+  Lemma chain2_head : forall e mm l ts, exists t r,
+    chain2_toks (e :: mm) true l ++ ts = t :: r /\
+    ityp_eqb (ttyp t) TEOL = false /\ ityp_eqb (ttyp t) TEOF = false.
+  Proof.
+    intros [g [[[b i] la] a]] mm l ts. cbn [chain2_toks app]. unfold cls_toks.
+    destruct (rev b) as [|x xs].
+    - cbn [map concat app]. eexists. eexists. split; [reflexivity|]. split; reflexivity.
+    - cbn [map concat]. unfold class_toks at 1. destruct (x =? 0); cbn [app]; eexists; eexists; split; try reflexivity; split; reflexivity.
+  Qed.
+
+  Lemma cls_toks_len : forall cs l, (length cs <= length (cls_toks cs l))%nat.
+  Proof. intros. apply class_toks_len. Qed.
+
+  Lemma chain2_loop_ok : forall mm kb ki kl l fuel data t0 rest,
+    mm <> [] -> Forall (crule2_ok kb ki kl) mm -> ends_list t0 = true ->
+    (length (chain2_toks mm true l ++ t0 :: rest) < fuel)%nat ->
+    chain2_loop endl fuel (map cname (seqN 1 kb)) (map cname (seqN 1 ki)) (map cname (seqN 1 kl)) data
+      (chain2_toks mm true l ++ t0 :: rest)
+    = POk (data ++ mm, t0 :: rest).
+  Proof.
+    induction mm as [|[c [[[bt inp] la] acts]] mm IH]; intros kb ki kl l fuel data t0 rest Hn Hm Ht Hf; [congruence|].
+    destruct fuel as [|f]; [cbn in Hf; lia|].
+    destruct (ends_list_props _ Ht) as (Hstop & Hnc & Hne). pose proof (ends_list_not_int _ Ht) as Hni.
+    inversion Hm as [|? ? Hk Hmm]; subst. destruct Hk as (Hb & Hi & Hl & Ho). cbn [fst snd] in *.
+    cbn [chain2_toks app chain2_loop]. unfold cls_toks. repeat (progress (rewrite <- ?app_assoc; cbn [app])).
+    pose proof (cls_toks_len (rev bt) l) as L1. pose proof (cls_toks_len (c :: inp) l) as L2.
+    pose proof (cls_toks_len la l) as L3. unfold cls_toks in L1, L2, L3.
+    unfold bind at 1.
+    rewrite (read_class_names_ok (rev bt) l (S f) [] (t_bar l)); try reflexivity;
+      [|clear - Hf L1; cbn [chain2_toks] in Hf; unfold cls_toks in Hf; fuel_tac].
+    unfold bind at 1. rewrite required_hit by reflexivity.
+    unfold bind at 1.
+    rewrite (read_class_names_ok (c :: inp) l (S f) [] (t_bar l)); try reflexivity;
+      [|clear - Hf L2; cbn [chain2_toks] in Hf; unfold cls_toks in Hf; fuel_tac].
+    unfold bind at 1. rewrite required_hit by reflexivity.
+    unfold bind at 1.
+    rewrite (read_class_names_ok la l (S f) [] (t_arrow l)); try reflexivity;
+      [|clear - Hf L3; cbn [chain2_toks] in Hf; unfold cls_toks in Hf; fuel_tac].
+    unfold bind at 1. rewrite required_hit by reflexivity.
+    unfold bind at 1. cbn [app map is_nil].
+    assert (E1 : classes_of (map cname (seqN 1 ki)) (cls_name c :: map cls_name inp) = Some (c :: inp))
+      by (apply (classes_of_cnames ki (c :: inp)); exact Hi).
+    assert (E2 : classes_of (map cname (seqN 1 kb)) (map cls_name (rev bt)) = Some (rev bt))
+      by (apply classes_of_cnames; exact Hb).
+    assert (E3 : classes_of (map cname (seqN 1 kl)) (map cls_name la) = Some la)
+      by (apply classes_of_cnames; exact Hl).
+    destruct mm as [|e' mm'].
+    - cbn [chain2_toks app]. rewrite ?app_nil_r.
+      rewrite read_nested_exact; auto; [|clear - Hf; cbn [chain2_toks] in Hf; fuel_tac].
+      rewrite E1, E2, E3. rewrite rev_involutive. unfold bind at 1. rewrite optional_miss by auto. reflexivity.
+    - rewrite chain2_toks_false. cbn [app]. rewrite <- ?app_assoc. cbn [app].
+      rewrite read_nested_exact; auto; [|clear - Hf; cbn [chain2_toks] in Hf; fuel_tac].
+      rewrite E1, E2, E3. rewrite rev_involutive. unfold bind at 1. rewrite optional_hit by reflexivity.
+      unfold bind at 1.
+      destruct (chain2_head e' mm' l (t0 :: rest)) as (th & tr & Eh & A1 & A2).
+      assert (Hopt : optional endl TEOL (chain2_toks (e' :: mm') true l ++ t0 :: rest)
+                     = POk (false, chain2_toks (e' :: mm') true l ++ t0 :: rest)).
+      { rewrite Eh. apply optional_miss; auto. }
+      rewrite Hopt.
+      rewrite IH; auto; [rewrite <- app_assoc; reflexivity|discriminate|].
+      clear - Hf. destruct e' as [g' [[[b' i'] l'] a']]. cbn [chain2_toks] in *. fuel_tac.
+  Qed.
+
+  (* ---- format 3 ---- *)
+  Definition set_ok (s : list N) : Prop := ascending s /\ gids_ok F s = true.
+
+  Lemma sets_until_ok : forall sets stop tstop l fuel acc rest,
+    Forall set_ok sets -> ttyp tstop = stop -> ityp_eqb TLBr stop = false ->
+    (length (sets_toks U F sets l) < fuel)%nat ->
+    sets_until F endl fuel stop acc (sets_toks U F sets l ++ tstop :: rest) = POk (acc ++ sets, rest).
+  Proof.
+    induction sets as [|s sets IH]; intros stop tstop l fuel acc rest Hs Et Hst Hf;
+      (destruct fuel as [|f]; [cbn in Hf; lia|]); unfold sets_toks in *.
+    - cbn [map concat app sets_until]. unfold bind at 1. rewrite optional_hit.
+      + rewrite app_nil_r. reflexivity.
+      + rewrite Et. destruct stop; reflexivity.
+    - inversion Hs as [|? ? H1 H2]; subst. destruct H1 as [Ha Hg].
+      cbn [map concat sets_until]. rewrite <- app_assoc. unfold gs_toks at 1. cbn [app].
+      unfold bind at 1. rewrite optional_miss; [|cbn [ttyp]; exact Hst|reflexivity].
+      change (tk TLBr [91] l :: (gl_toks U F s l ++ [tk TRBr [93] l]) ++ concat (map (fun s0 => gs_toks U F s0 l) sets) ++ tstop :: rest)
+        with (gs_toks U F s l ++ (concat (map (fun s0 => gs_toks U F s0 l) sets) ++ tstop :: rest)).
+      unfold bind at 1. rewrite rgs_ok; auto; [|clear - Hf; cbn [map concat] in Hf; unfold gs_toks in Hf at 1; fuel_tac].
+      rewrite (IH (ttyp tstop) tstop l f (acc ++ [s]) rest); auto.
+      + rewrite <- app_assoc. reflexivity.
+      + clear - Hf. cbn [map concat] in Hf. unfold gs_toks in Hf at 1. fuel_tac.
+  Qed.
+
+  Lemma sets_then_ok : forall sets stop tstop l fuel acc rest,
+    sets <> [] -> Forall set_ok sets -> ttyp tstop = stop -> ityp_eqb TLBr stop = false ->
+    (length (sets_toks U F sets l) < fuel)%nat ->
+    sets_then F endl fuel stop acc (sets_toks U F sets l ++ tstop :: rest) = POk (acc ++ sets, rest).
+  Proof.
+    induction sets as [|s sets IH]; intros stop tstop l fuel acc rest Hn Hs Et Hst Hf; [congruence|].
+    destruct fuel as [|f]; [cbn in Hf; lia|]. unfold sets_toks in *.
+    inversion Hs as [|? ? H1 H2]; subst. destruct H1 as [Ha Hg].
+    cbn [map concat sets_then]. rewrite <- app_assoc.
+    unfold bind at 1. rewrite rgs_ok; auto; [|clear - Hf; cbn [map concat] in Hf; unfold gs_toks in Hf at 1; fuel_tac].
+    destruct sets as [|s' sets'].
+    - cbn [map concat app]. unfold bind at 1. rewrite optional_hit; [reflexivity|].
+      destruct (ttyp tstop); reflexivity.
+    - cbn [map concat]. unfold gs_toks at 1. cbn [app].
+      unfold bind at 1. rewrite optional_miss; [|cbn [ttyp]; exact Hst|reflexivity].
+      change (tk TLBr [91] l :: (gl_toks U F s' l ++ [tk TRBr [93] l]) ++ concat (map (fun s0 => gs_toks U F s0 l) sets') ++ tstop :: rest)
+        with ((gs_toks U F s' l ++ concat (map (fun s0 => gs_toks U F s0 l) sets')) ++ tstop :: rest).
+      replace (acc ++ s :: s' :: sets') with ((acc ++ [s]) ++ s' :: sets') by (rewrite <- app_assoc; reflexivity).
+      apply (IH (ttyp tstop) tstop l f (acc ++ [s]) rest); auto; [discriminate|].
+      clear - Hf. cbn [map concat] in *. unfold gs_toks in Hf at 1. fuel_tac.
+  Qed.
+
+  (* ---- class definitions of the three tables ---- *)
+  Lemma def_class_ok : forall kw gl pre l fuel rest,
+    class_ok gl -> nodupN (concat (pre ++ [gl])) = true ->
+    (length (gl_toks U F gl l) < fuel)%nat ->
+    def_class F endl fuel (map cname (seqN 1 (length pre)), pre)
+      (tk TIdent kw l :: t_colon l :: tk TIdent (cname (N.of_nat (length pre) + 1)) l :: t_colon l
+         :: tk TEqual [61] l :: gs_toks U F gl l ++ tk TEOL [10] l :: rest)
+    = POk ((map cname (seqN 1 (S (length pre))), pre ++ [gl]), rest).
+  Proof.
+    intros kw gl pre l fuel rest (Hn & Ha & Hg) Hd Hf. unfold def_class.
+    unfold bind at 1. unfold parse_class_def.
+    unfold bind at 1. rewrite read_identifier_hit.
+    unfold bind at 1. rewrite required_hit by reflexivity.
+    unfold bind at 1. rewrite read_identifier_hit.
+    unfold bind at 1. rewrite required_hit by reflexivity.
+    unfold bind at 1. rewrite optional_hit by reflexivity.
+    unfold bind at 1. rewrite rgs_ok; auto.
+    destruct gl as [|g0 gl']; [congruence|]. cbn [is_nil]. unfold ret at 1. cbn [fst snd].
+    rewrite cname_fresh by lia.
+    assert (Eov : existsb (fun g => existsb (N.eqb g) (concat pre)) (g0 :: gl') = false).
+    { destruct (existsb _ (g0 :: gl')) eqn:E; [|reflexivity]. apply existsb_exists in E.
+      destruct E as (g & Hin & Eg). rewrite concat_app in Hd. cbn [concat] in Hd. rewrite app_nil_r in Hd.
+      rewrite (nodupN_app_disjoint _ _ Hd g Hin) in Eg. discriminate. }
+    rewrite Eov. unfold bind at 1. rewrite optional_hit by reflexivity. unfold ret.
+    rewrite seqN_snoc, map_app. cbn [map].
+    replace (1 + N.of_nat (length pre)) with (N.of_nat (length pre) + 1) by lia. reflexivity.
+  Qed.
+
+  Lemma chain_classes_bc : forall post pre l fu ic lc subs X,
+    Forall class_ok post ->
+    nodupN (concat (pre ++ post)) = true ->
+    (length (defcls_toks U F k_backtrackclass post (N.of_nat (length pre) + 1) l) <= length post + fu)%nat ->
+    chainctx_loop F endl (length post + fu) ic (map cname (seqN 1 (length pre)), pre) lc subs
+      (defcls_toks U F k_backtrackclass post (N.of_nat (length pre) + 1) l ++ X)
+    = chainctx_loop F endl fu ic (map cname (seqN 1 (length pre + length post)), pre ++ post) lc subs X.
+  Proof.
+    induction post as [|gl post IH]; intros pre l fu ic lc subs X Hc Hd Hf.
+    - cbn [length defcls_toks app]. rewrite Nat.add_0_r, app_nil_r. reflexivity.
+    - inversion Hc as [|? ? Hg Hc']; subst.
+      cbn [length defcls_toks]. rewrite <- !app_assoc. cbn [app plus chainctx_loop].
+      unfold bind at 1. rewrite chain_peek_nobar by reflexivity. cbv zeta. cbn [fst snd].
+      change (is_ident (tk TIdent k_backtrackclass l) k_inputclass) with false.
+      change (is_ident (tk TIdent k_backtrackclass l) k_backtrackclass) with true. cbv iota.
+      unfold bind at 1.
+      rewrite (def_class_ok k_backtrackclass gl pre l _ (defcls_toks U F k_backtrackclass post (N.of_nat (length pre) + 1 + 1) (l + 1) ++ X)); auto.
+      + replace (N.of_nat (length pre) + 1 + 1) with (N.of_nat (length (pre ++ [gl])) + 1)
+          by (rewrite app_length; cbn [length]; lia).
+        replace (S (length pre)) with (length (pre ++ [gl])) by (rewrite app_length; cbn [length]; lia).
+        rewrite (IH (pre ++ [gl]) (l + 1) fu ic lc subs X); auto.
+        * rewrite app_length. cbn [length]. rewrite <- app_assoc. cbn [app].
+          replace (length pre + 1 + length post)%nat with (length pre + S (length post))%nat by lia. reflexivity.
+        * rewrite <- app_assoc. exact Hd.
+        * clear - Hf. cbn [defcls_toks] in Hf. rewrite app_length. cbn [length].
+          replace (N.of_nat (length pre + 1) + 1) with (N.of_nat (length pre) + 1 + 1) by lia. fuel_tac.
+      + rewrite concat_app in *. cbn [concat] in *. rewrite app_nil_r. rewrite app_assoc in Hd.
+        apply nodupN_app_l in Hd. exact Hd.
+      + clear - Hf. cbn [defcls_toks] in Hf. unfold gs_toks in Hf. fuel_tac.
+  Qed.
+
+  Lemma chain_classes_ic : forall post pre l fu bc lc subs X,
+    Forall class_ok post ->
+    nodupN (concat (pre ++ post)) = true ->
+    (length (defcls_toks U F k_inputclass post (N.of_nat (length pre) + 1) l) <= length post + fu)%nat ->
+    chainctx_loop F endl (length post + fu) (map cname (seqN 1 (length pre)), pre) bc lc subs
+      (defcls_toks U F k_inputclass post (N.of_nat (length pre) + 1) l ++ X)
+    = chainctx_loop F endl fu (map cname (seqN 1 (length pre + length post)), pre ++ post) bc lc subs X.
+  Proof.
+    induction post as [|gl post IH]; intros pre l fu bc lc subs X Hc Hd Hf.
+    - cbn [length defcls_toks app]. rewrite Nat.add_0_r, app_nil_r. reflexivity.
+    - inversion Hc as [|? ? Hg Hc']; subst.
+      cbn [length defcls_toks]. rewrite <- !app_assoc. cbn [app plus chainctx_loop].
+      unfold bind at 1. rewrite chain_peek_nobar by reflexivity. cbv zeta. cbn [fst snd].
+      change (is_ident (tk TIdent k_inputclass l) k_inputclass) with true. cbv iota.
+      unfold bind at 1.
+      rewrite (def_class_ok k_inputclass gl pre l _ (defcls_toks U F k_inputclass post (N.of_nat (length pre) + 1 + 1) (l + 1) ++ X)); auto.
+      + replace (N.of_nat (length pre) + 1 + 1) with (N.of_nat (length (pre ++ [gl])) + 1)
+          by (rewrite app_length; cbn [length]; lia).
+        replace (S (length pre)) with (length (pre ++ [gl])) by (rewrite app_length; cbn [length]; lia).
+        rewrite (IH (pre ++ [gl]) (l + 1) fu bc lc subs X); auto.
+        * rewrite app_length. cbn [length]. rewrite <- app_assoc. cbn [app].
+          replace (length pre + 1 + length post)%nat with (length pre + S (length post))%nat by lia. reflexivity.
+        * rewrite <- app_assoc. exact Hd.
+        * clear - Hf. cbn [defcls_toks] in Hf. rewrite app_length. cbn [length].
+          replace (N.of_nat (length pre + 1) + 1) with (N.of_nat (length pre) + 1 + 1) by lia. fuel_tac.
+      + rewrite concat_app in *. cbn [concat] in *. rewrite app_nil_r. rewrite app_assoc in Hd.
+        apply nodupN_app_l in Hd. exact Hd.
+      + clear - Hf. cbn [defcls_toks] in Hf. unfold gs_toks in Hf. fuel_tac.
+  Qed.
+
+  Lemma chain_classes_lc : forall post pre l fu ic bc subs X,
+    Forall class_ok post ->
+    nodupN (concat (pre ++ post)) = true ->
+    (length (defcls_toks U F k_lookaheadclass post (N.of_nat (length pre) + 1) l) <= length post + fu)%nat ->
+    chainctx_loop F endl (length post + fu) ic bc (map cname (seqN 1 (length pre)), pre) subs
+      (defcls_toks U F k_lookaheadclass post (N.of_nat (length pre) + 1) l ++ X)
+    = chainctx_loop F endl fu ic bc (map cname (seqN 1 (length pre + length post)), pre ++ post) subs X.
+  Proof.
+    induction post as [|gl post IH]; intros pre l fu ic bc subs X Hc Hd Hf.
+    - cbn [length defcls_toks app]. rewrite Nat.add_0_r, app_nil_r. reflexivity.
+    - inversion Hc as [|? ? Hg Hc']; subst.
+      cbn [length defcls_toks]. rewrite <- !app_assoc. cbn [app plus chainctx_loop].
+      unfold bind at 1. rewrite chain_peek_nobar by reflexivity. cbv zeta. cbn [fst snd].
+      change (is_ident (tk TIdent k_lookaheadclass l) k_inputclass) with false.
+      change (is_ident (tk TIdent k_lookaheadclass l) k_backtrackclass) with false.
+      change (is_ident (tk TIdent k_lookaheadclass l) k_lookaheadclass) with true. cbv iota.
+      unfold bind at 1.
+      rewrite (def_class_ok k_lookaheadclass gl pre l _ (defcls_toks U F k_lookaheadclass post (N.of_nat (length pre) + 1 + 1) (l + 1) ++ X)); auto.
+      + replace (N.of_nat (length pre) + 1 + 1) with (N.of_nat (length (pre ++ [gl])) + 1)
+          by (rewrite app_length; cbn [length]; lia).
+        replace (S (length pre)) with (length (pre ++ [gl])) by (rewrite app_length; cbn [length]; lia).
+        rewrite (IH (pre ++ [gl]) (l + 1) fu ic bc subs X); auto.
+        * rewrite app_length. cbn [length]. rewrite <- app_assoc. cbn [app].
+          replace (length pre + 1 + length post)%nat with (length pre + S (length post))%nat by lia. reflexivity.
+        * rewrite <- app_assoc. exact Hd.
+        * clear - Hf. cbn [defcls_toks] in Hf. rewrite app_length. cbn [length].
+          replace (N.of_nat (length pre + 1) + 1) with (N.of_nat (length pre) + 1 + 1) by lia. fuel_tac.
+      + rewrite concat_app in *. cbn [concat] in *. rewrite app_nil_r. rewrite app_assoc in Hd.
+        apply nodupN_app_l in Hd. exact Hd.
+      + clear - Hf. cbn [defcls_toks] in Hf. unfold gs_toks in Hf. fuel_tac.
+  Qed.
+
+  (* ---- one chained subtable, then the list ---- *)
+  Definition nclasses6 (h : chain_sub) : nat :=
+    match h with Chain2 _ b i l _ => (length b + (length i + length l))%nat | _ => 0%nat end.
+
+  Lemma nclasses6_len : forall h l, (nclasses6 h <= length (chain_toks U F h l))%nat.
+  Proof.
+    intros [cov rules|cov b i la rules|bt input la acts] l; cbn [nclasses6]; try lia.
+    unfold chain_toks. cbv zeta. rewrite !app_length.
+    pose proof (defcls_len k_backtrackclass b 1 l).
+    pose proof (defcls_len k_inputclass i 1 (l + N.of_nat (length b))).
+    pose proof (defcls_len k_lookaheadclass la 1 (l + N.of_nat (length b) + N.of_nat (length i))). lia.
+  Qed.
+
+  Definition e3 : ctable := ([], []).
+  Definition chain_cont (fu : nat) (subs : list subtable) (h : chain_sub) : P (list subtable) :=
+    b <- optional endl TOr ;;
+    if b then (optional endl TEOL ;;; chainctx_loop F endl fu e3 e3 e3 (subs ++ [Chn h])) else ret (subs ++ [Chn h]).
+
+  Lemma classes_wf_ok : forall classes, classes_wf F classes = true ->
+    Forall class_ok classes /\ nodupN (concat classes) = true.
+  Proof.
+    intros classes H. unfold classes_wf in H. apply andb_true_iff in H. destruct H as [H1 H2]. split; auto.
+    apply forallb_Forall in H1. eapply Forall_impl; [|exact H1]. cbn. intros a Hx. split_wf' Hx.
+    repeat split; auto; [destruct a; [discriminate|congruence]|apply ascendingb_spec; auto].
+  Qed.
+
+  Lemma le_all_forall : forall k cs, le_all k cs = true -> Forall (fun c => c <= N.of_nat k) cs.
+  Proof.
+    intros k cs H. unfold le_all in H. apply forallb_Forall in H. eapply Forall_impl; [|exact H].
+    cbn. intros; lia.
+  Qed.
+
+  Lemma sets_forall : forall sets, forallb (fun s => ascendingb s && gids_ok F s) sets = true -> Forall set_ok sets.
+  Proof.
+    intros sets H. apply forallb_Forall in H. eapply Forall_impl; [|exact H]. cbn. intros a Hx.
+    apply andb_true_iff in Hx. destruct Hx. split; auto. apply ascendingb_spec; auto.
+  Qed.
+
+  Lemma seqN_length : forall n i, length (seqN i n) = n.
+  Proof. induction n; intros; cbn; auto. Qed.
+
+  Lemma chain_step : forall h l fu subs t1 rest,
+    chain_wf F h = true -> ends_list t1 = true ->
+    (length (chain_toks U F h l ++ t1 :: rest) < nclasses6 h + S fu)%nat ->
+    chainctx_loop F endl (nclasses6 h + S fu) e3 e3 e3 subs (chain_toks U F h l ++ t1 :: rest)
+    = chain_cont fu subs h (t1 :: rest).
+  Proof.
+    intros h l fu subs t1 rest W Ht Hf.
+    destruct (ends_list_props _ Ht) as (Hstop & Hnc & Hne). pose proof (ends_list_not_int _ Ht) as Hni.
+    destruct h as [cov rules|cov btc inc lac rules|bt input la acts]; cbn [chain_wf] in W; split_wf' W;
+      cbn [nclasses6 plus] in *; unfold chain_toks in *.
+    - (* format 1 *)
+      assert (Ha : ascending cov) by (apply ascendingb_spec; assumption).
+      assert (Hc : Forall (fun g => g < num_glyphs F) cov) by (apply gids_ok_forall; assumption).
+      assert (Hl : length cov = length rules) by (apply Nat.eqb_eq; assumption).
+      match goal with Hx : forallb _ rules = true |- _ => apply forallb_Forall in Hx; rename Hx into W0 end.
+      assert (Hne' : Forall (fun r => r <> []) rules).
+      { eapply Forall_impl; [|exact W0]. cbn. intros a Hx. apply andb_true_iff in Hx. destruct Hx as [X _].
+        destruct a; [discriminate|congruence]. }
+      rewrite flat_rules_groups in *.
+      assert (Hgn : exists e mm, groups cov rules = e :: mm).
+      { destruct cov as [|g cov']; [discriminate|]. destruct rules as [|r rules']; [discriminate|].
+        inversion Hne'; subst. destruct r as [|x r']; [congruence|]. rewrite groups_cons. cbn. eauto. }
+      destruct Hgn as (e & mm & Eg).
+      assert (Hall : Forall crule1_ok (groups cov rules)).
+      { apply Forall_forall. intros [key r] Hin. unfold groups in Hin.
+        apply in_concat in Hin. destruct Hin as (grp & Hgrp & Hin). apply in_map_iff in Hgrp.
+        destruct Hgrp as ([k ls] & E & Hcb). subst grp. cbn [fst snd] in Hin.
+        apply in_map_iff in Hin. destruct Hin as (lg & E & Hlg). inversion E; subst; clear E.
+        pose proof (in_combine_l _ _ _ _ Hcb) as Hk. pose proof (in_combine_r _ _ _ _ Hcb) as Hls.
+        rewrite Forall_forall in Hc, W0. specialize (Hc _ Hk). specialize (W0 _ Hls). cbn in W0.
+        apply andb_true_iff in W0. destruct W0 as [_ W0]. rewrite forallb_forall in W0.
+        specialize (W0 _ Hlg). split_wf' W0. unfold crule1_ok. cbn [fst snd].
+        repeat split; auto.
+        - unfold gids_ok in *. rewrite forallb_forall in *. intros x Hx. apply W0. apply in_rev. exact Hx.
+        - unfold gids_ok in *. cbn [forallb]. assert (E : (key <? num_glyphs F) = true) by lia. rewrite E. auto. }
+      cbn [chainctx_loop].
+      assert (Epk : exists pk, chain_peek endl (chain1_toks U F (groups cov rules) true l ++ t1 :: rest)
+                      = POk (pk, chain1_toks U F (groups cov rules) true l ++ t1 :: rest)
+                      /\ not_chain_kw (fst pk) /\ ityp_eqb (snd pk) TSlash = false /\ ityp_eqb (snd pk) TLBr = false).
+      { rewrite Eg. destruct e as [g [[[b i] la0] a]]. cbn [chain1_toks app].
+        destruct (gl_toks_head6 g i l) as (t2 & r2 & E2 & A2 & K2 & B2 & S2 & L2). 
+        destruct (rev b) as [|x xs].
+        - change (gl_toks U F [] l) with (@nil token). cbn [app]. rewrite E2. cbn [app]. eexists. split.
+          + apply chain_peek_bar. destruct (after_flags_props _ A2). auto.
+          + cbn [fst snd]. repeat split; auto.
+        - destruct (gl_toks_head6 x xs l) as (t3 & r3 & E3 & A3 & K3 & B3 & S3 & L3). rewrite E3. cbn [app].
+          eexists. split.
+          + apply chain_peek_nobar; auto. destruct (after_flags_props _ A3). auto.
+          + cbn [fst snd]. repeat split; auto. }
+      destruct Epk as (pk & Epk & (K1 & K2 & K3) & S1 & L1).
+      unfold bind at 1. rewrite Epk. cbv zeta. rewrite K1, K2, K3, S1, L1.
+      unfold bind at 1. unfold bind at 1.
+      rewrite (chain1_loop_ok (groups cov rules) l (S fu) [] t1 rest); auto; [|rewrite Eg; discriminate].
+      cbn [app]. unfold ret at 1. cbv zeta. unfold build_cov.
+      destruct (groups_keys cov rules Ha Hl Hne') as [G1 G2]. rewrite G1, G2.
+      rewrite vals_of_groups by auto. reflexivity.
+    - (* format 2 *)
+      assert (Ha : ascending cov) by (apply ascendingb_spec; assumption).
+      match goal with Hx : (length rules =? S (length inc))%nat = true |- _ => apply Nat.eqb_eq in Hx; rename Hx into Hlr end.
+      match goal with Hx : classes_wf F btc = true |- _ => destruct (classes_wf_ok _ Hx) as [Hb1 Hb2] end.
+      match goal with Hx : classes_wf F inc = true |- _ => destruct (classes_wf_ok _ Hx) as [Hi1 Hi2] end.
+      match goal with Hx : classes_wf F lac = true |- _ => destruct (classes_wf_ok _ Hx) as [Hl1 Hl2] end.
+      set (kb := length btc) in *. set (ki := length inc) in *. set (kl := length lac) in *.
+      set (l1 := l + N.of_nat kb) in *. set (l2 := l1 + N.of_nat ki) in *. set (l3 := l2 + N.of_nat kl) in *.
+      set (mm := flat_rules (index_from 0 rules)) in *.
+      assert (Hmne : mm <> []).
+      { match goal with Hx : negb (is_nil (concat rules)) = true |- _ => rename Hx into Hn end.
+        unfold mm. clear - Hn. generalize 0. induction rules as [|rs r IH]; intros i; [discriminate|].
+        cbn [index_from]. unfold flat_rules. cbn [map concat fst snd]. destruct rs as [|x rs'].
+        - cbn [map app]. apply IH. exact Hn.
+        - discriminate. }
+      assert (Hmm : Forall (crule2_ok kb ki kl) mm).
+      { match goal with Hx : forallb (forallb _) rules = true |- _ => rename Hx into Wr end.
+        unfold mm. apply Forall_forall. intros [c r] Hin. unfold flat_rules in Hin.
+        apply in_concat in Hin. destruct Hin as (grp & Hgrp & Hin). apply in_map_iff in Hgrp.
+        destruct Hgrp as ([c' rs] & E & Hidx). subst grp. cbn [fst snd] in Hin.
+        apply in_map_iff in Hin. destruct Hin as (r' & E & Hr). inversion E; subst; clear E.
+        assert (Hrs : In rs rules /\ c < N.of_nat (length rules)).
+        { clear - Hidx. assert (G : forall j, In (c, rs) (index_from j rules) -> In rs rules /\ j <= c /\ c < j + N.of_nat (length rules)).
+          { clear. induction rules as [|x r IH]; intros j Hj; [contradiction|]. cbn [index_from] in Hj. destruct Hj as [Hj|Hj].
+            - inversion Hj; subst. split; [left; auto|cbn [length]; lia].
+            - destruct (IH (j + 1) Hj) as (A & B & C). split; [right; auto|cbn [length]; lia]. }
+          destruct (G 0 Hidx) as (A & B & C). split; auto. }
+        destruct Hrs as [Hrs Hcl']. rewrite forallb_forall in Wr. specialize (Wr _ Hrs).
+        rewrite forallb_forall in Wr. specialize (Wr _ Hr). split_wf' Wr.
+        unfold crule2_ok. cbn [fst snd]. repeat split; auto.
+        - apply Forall_rev. apply le_all_forall. assumption.
+        - constructor; [rewrite Hlr in Hcl'; lia|]. apply le_all_forall. assumption.
+        - apply le_all_forall. assumption. }
+      repeat (progress (rewrite <- ?app_assoc in *; cbn [app] in * )).
+      pose proof (defcls_len k_backtrackclass btc 1 l) as D1.
+      pose proof (defcls_len k_inputclass inc 1 l1) as D2.
+      pose proof (defcls_len k_lookaheadclass lac 1 l2) as D3. fold kb in D1. fold ki in D2. fold kl in D3.
+      replace (kb + (ki + kl) + S fu)%nat with (kb + (ki + (kl + S fu)))%nat in * by lia.
+      pose proof (chain_classes_bc btc [] l (ki + (kl + S fu)) e3 e3 subs) as P1.
+      cbn [length app seqN map] in P1. change (N.of_nat 0 + 1) with 1 in P1. fold kb in P1.
+      unfold e3 at 2. rewrite P1; auto; [|clear - Hf D1 D2 D3; fuel_tac]. clear P1.
+      pose proof (chain_classes_ic inc [] l1 (kl + S fu) (map cname (seqN 1 kb), btc) e3 subs) as P2.
+      cbn [length app seqN map] in P2. change (N.of_nat 0 + 1) with 1 in P2. fold ki in P2.
+      unfold e3 at 1. rewrite P2; auto; [|clear - Hf D1 D2 D3; fuel_tac]. clear P2.
+      pose proof (chain_classes_lc lac [] l2 (S fu) (map cname (seqN 1 ki), inc) (map cname (seqN 1 kb), btc) subs) as P3.
+      cbn [length app seqN map] in P3. change (N.of_nat 0 + 1) with 1 in P3. fold kl in P3.
+      unfold e3 at 1. rewrite P3; auto; [|clear - Hf D1 D2 D3; fuel_tac]. clear P3.
+      cbn [plus chainctx_loop].
+      unfold bind at 1. rewrite chain_peek_nobar by reflexivity. cbv zeta. cbn [fst snd].
+      change (is_ident (t_slash l3) k_inputclass) with false.
+      change (is_ident (t_slash l3) k_backtrackclass) with false.
+      change (is_ident (t_slash l3) k_lookaheadclass) with false. cbn [ttyp t_slash ityp_eqb].
+      unfold bind at 1. unfold bind at 1. rewrite required_hit by reflexivity.
+      unfold bind at 1.
+      rewrite (rgl_gl cov l3 (S fu) (t_slash l3)); auto; [|clear - Hf D1 D2 D3; fuel_tac].
+      unfold bind at 1. rewrite required_hit by reflexivity.
+      unfold bind at 1.
+      rewrite (chain2_loop_ok mm kb ki kl l3 (S fu) [] t1 rest); auto; [|clear - Hf D1 D2 D3; fuel_tac].
+      cbn [app]. unfold ret at 1. rewrite sort_uniq_ascending by auto.
+      rewrite map_length, seqN_length. rewrite <- Hlr.
+      assert (Ev : map (fun c => vals_of (N.of_nat c) mm) (seq 0 (length rules)) = rules).
+      { rewrite <- (vals_of_index rules 0) at 2. apply map_ext. intros c. rewrite N.add_0_l. reflexivity. }
+      rewrite Ev. reflexivity.
+    - (* format 3 *)
+      assert (Hb : Forall set_ok (rev bt)) by (apply Forall_rev; apply sets_forall; assumption).
+      assert (Hi : Forall set_ok input) by (apply sets_forall; assumption).
+      assert (Hl : Forall set_ok la) by (apply sets_forall; assumption).
+      assert (Hn : input <> []) by (destruct input; [discriminate|congruence]).
+      repeat (progress (rewrite <- ?app_assoc in *; cbn [app] in * )).
+      cbn [chainctx_loop].
+      assert (Epk : exists pk, chain_peek endl (sets_toks U F (rev bt) l ++ t_bar l :: sets_toks U F input l ++ t_bar l :: sets_toks U F la l ++ t_arrow l :: nested_toks acts l ++ t1 :: rest)
+                      = POk (pk, sets_toks U F (rev bt) l ++ t_bar l :: sets_toks U F input l ++ t_bar l :: sets_toks U F la l ++ t_arrow l :: nested_toks acts l ++ t1 :: rest)
+                      /\ not_chain_kw (fst pk) /\ ityp_eqb (snd pk) TSlash = false /\ ityp_eqb (snd pk) TLBr = true).
+      { destruct (rev bt) as [|s r].
+        - cbn [sets_toks map concat app]. destruct input as [|s' r']; [congruence|].
+          unfold sets_toks at 1. cbn [map concat]. unfold gs_toks at 1. cbn [app].
+          eexists. split; [apply chain_peek_bar; reflexivity|]. cbn [fst snd]. repeat split; reflexivity.
+        - unfold sets_toks at 1 3. cbn [map concat]. unfold gs_toks at 1 3. cbn [app].
+          eexists. split; [apply chain_peek_nobar; reflexivity|]. cbn [fst snd]. repeat split; reflexivity. }
+      destruct Epk as (pk & Epk & (K1 & K2 & K3) & S1 & L1).
+      unfold bind at 1. rewrite Epk. cbv zeta. rewrite K1, K2, K3, S1, L1.
+      unfold bind at 1. unfold bind at 1.
+      rewrite (sets_until_ok (rev bt) TBar (t_bar l)); auto; [|clear - Hf; fuel_tac].
+      unfold bind at 1.
+      rewrite (sets_then_ok input TBar (t_bar l)); auto; [|clear - Hf; fuel_tac].
+      unfold bind at 1.
+      rewrite (sets_until_ok la TArrow (t_arrow l)); auto; [|clear - Hf; fuel_tac].
+      unfold bind at 1. cbn [app].
+      rewrite read_nested_exact; auto; try (clear - Hf; fuel_tac).
+      unfold ret at 1. rewrite rev_involutive. reflexivity.
+  Qed.
+
   Lemma gpos_head : forall lk l, gpos_lookup_wf F lk = true ->
     lookup_toks U F k_GPOS lk l = tk TIdent k_GPOS1 l :: tl (lookup_toks U F k_GPOS lk l).
   Proof.
